@@ -640,6 +640,12 @@ class DynamicBayesianNetwork(DAG):
             if not any(x.variable == temp_var for x in self.cpds):
                 if all(x[1] == parents[0][1] for x in parents):
                     if parents:
+                        # Keep the table's own parent order when it names the same parents.
+                        mirrored = [
+                            DynamicNode(var[0], 1 - var[1]) for var in cpd.variables[1:]
+                        ]
+                        if set(mirrored) == set(parents):
+                            parents = mirrored
                         evidence_card = cpd.cardinality[1:]
                         new_cpd = TabularCPD(
                             temp_var,
